@@ -68,6 +68,11 @@ def global_write_obligations(repo):
     out.append(('module-state.checked', True, ''))
     out.extend(frame.module_state(repo))
     out.extend(frame.mutable_defaults(repo))
+    out.extend(frame.process_state_writes(repo))
+    # a value that came from the host (a callback, a list) may be registered with several parsers: writing to it is a channel between them
+    for s in frame.all_sinks(repo):
+        if s.owner in ('Host', 'FreshElem') and not s.ok:
+            out.append(('host-object-write.' + s.name, False, 'line %d writes to an object that came from the host (%s)' % (s.line, s.note)))
     return out
 
 
